@@ -15,7 +15,7 @@
                         (the statements are equations between two decodings of the same bytes).                         *)
 From PNA Require Import Base Crc32 Name Codec Chunk Archive Entry Flatten Cbc Ctr Pipeline Aes Camellia
   BaseFacts ChunkFacts ArchiveFacts EntryFacts FlattenFacts CbcFacts CtrFacts StreamFacts PipelineFacts
-  Wf WfFacts WfWriterFacts WfAgreeFacts WfSplitFacts AesFacts CamelliaFacts PipelineRealFacts RecutFacts.
+  Wf WfFacts WfWriterFacts WfAgreeFacts WfSplitFacts AesFacts CamelliaFacts PipelineRealFacts PipelineRun RecutFacts.
 From PNA Require Split SplitFacts.
 Open Scope N_scope.
 
@@ -402,6 +402,28 @@ Check C03_write_split_recut :
   exists bds lastb, parts = SplitFacts.assemble bds lastb /\
                     recut t (map to_c (concat es)) (map to_c (concat bds ++ lastb)).
 Print Assumptions C03_write_split_recut.
+
+(* tie to the correspondence run: the read sequence of the pipeline area's case interpreter (the caller's read-until-zero loop
+   with cyclic positive buffer sizes) drains, so every decode case is an instance of the theorems above ... *)
+Theorem C03_reads_for_drains :
+  forall sizes data, sizes <> [] -> Forall (fun n => 0 < n) sizes -> drains data (reads_for sizes data).
+Proof. exact reads_for_drains. Qed.
+Check C03_reads_for_drains :
+  forall sizes data, sizes <> [] -> Forall (fun n => 0 < n) sizes -> drains data (reads_for sizes data).
+Print Assumptions C03_reads_for_drains.
+
+(* ... and the content the interpreter prints for an entry (real ciphers, oracle tables for KDF and decompressor) does not depend
+   on the framing of its data nor on the case's buffer sizes *)
+Theorem C03_content_of_framing_indep :
+  forall vt dt s1 s2 e1 e2, normal_same e1 e2 ->
+  s1 <> [] -> Forall (fun n => 0 < n) s1 -> s2 <> [] -> Forall (fun n => 0 < n) s2 ->
+  content_of vt dt s1 e1 = content_of vt dt s2 e2.
+Proof. exact content_of_framing_indep. Qed.
+Check C03_content_of_framing_indep :
+  forall vt dt s1 s2 e1 e2, normal_same e1 e2 ->
+  s1 <> [] -> Forall (fun n => 0 < n) s1 -> s2 <> [] -> Forall (fun n => 0 < n) s2 ->
+  content_of vt dt s1 e1 = content_of vt dt s2 e2.
+Print Assumptions C03_content_of_framing_indep.
 
 (* premises are satisfiable by non-trivial values: a 33-byte file, AES-256-CBC (the Gallina AES), store; EntryBuilder's chunks
    carry IV + 3 cipher blocks in four 16-byte FDAT chunks; the re-cut has FDAT chunks of 1, 0, 7, 16, 20, 20 bytes (inside the
